@@ -229,7 +229,7 @@ func drawC20(t *rapid.T) C20Case {
 func TestC20(t *testing.T) {
 	rec := obs.New("C20")
 	defer rec.Flush(true)
-	rec.SetExtra("rule", "fault enumeration: for every generated token shape (authority content, appended content), every operation that draws randomness (Builder.Build with WithRNG, biscuit.New, Append on a fresh token, Append on a token reloaded from bytes) x every fault point k in 0..31 (plus controls k = 32, 33, 64, 96) x failure kind (error, io.EOF, io.ErrUnexpectedEOF; reported with the last data or on the next call) x chunking (all at once, one byte at a time, drawn chunk size). k < 32: an error, no token, no panic. k >= 32: the announced next key and the proof are derived from the first 32 delivered bytes and the chain verifies per the reference. Non-trivial = fault strictly inside the key read (k < 32); distinct by (shape, operation, k, kind, chunking). The cell space is enumerated completely for each shape.")
+	rec.SetExtra("rule", "fault enumeration: for every generated token shape (authority content, appended content), every operation that draws randomness (Builder.Build with WithRNG alone and combined with WithRootKeyID in either order, biscuit.New, Append on a fresh token, Append on a token reloaded from bytes) x every fault point k in 0..31 (plus controls k = 32, 33, 64, 96) x failure kind (error, io.EOF, io.ErrUnexpectedEOF; reported with the last data or on the next call) x chunking (all at once, one byte at a time, drawn chunk size). k < 32: an error, no token, no panic. k >= 32: the announced next key and the proof are derived from the first 32 delivered bytes and the chain verifies per the reference. Non-trivial = fault strictly inside the key read (k < 32); distinct by (shape, operation, k, kind, chunking). The cell space is enumerated completely for each shape.")
 	rec.SetExtra("assumptions", []string{"ed25519.GenerateKey reads exactly 32 bytes with io.ReadFull (Go 1.23 standard library)", "Seal draws no randomness"})
 	rec.SetExtra("exhaustive", true)
 	harness.RunWith(t, harness.Spec[C20Case]{ID: "C20", Draw: drawC20, Check: checkC20}, rec)
